@@ -43,10 +43,38 @@ def check(t):
     return n, fails
 
 
+def deep_pairs():
+    """trees deeper than the interpreter's recursion limit: `==` may give up with RecursionError (resource limit, assumption A9), but an
+    answer, if there is one, is the right one - also when the two trees share a node object before the place where they differ"""
+    fails = []
+    n = 0
+    for depth in (700, 3000):
+        for wrap_name, wrap in (("groups", lambda x, k: T.Group(x)), ("mixed wrappers", lambda x, k: [T.Group, T.Not, lambda y: T.Boost(y, 2), T.Plus][k % 4](x))):
+            shared = T.Word("shared")
+
+            def build(last):
+                t = T.AndOperation(shared, T.Word(last), T.NONE_ITEM)
+                for k in range(depth):
+                    t = wrap(t, k)
+                return t
+            a, a2, b = build("x"), build("x"), build("y")
+            for left, right, same in ((a, b, False), (b, a, False), (a, a2, True)):
+                n += 1
+                try:
+                    r = bool(left == right)
+                except RecursionError:
+                    continue
+                if r is not same:
+                    fails.append({"input": "%d %s around AND(shared node, %s)" % (depth, wrap_name, "x / y" if not same else "x / x"), "signature": "deep",
+                                  "observation": "== answers %s on two trees of depth %d that %s" % (r, depth, "are equal" if same else "differ in the last word")})
+    return n, fails[:3]
+
+
 def main():
     p = read_payload()
     pool = TR.pool(p["max_tokens"])
     res = pmap(check, pool)
+    res.append(deep_pairs())
     failures = [f for r in res for f in r[1]]
     rest, hit = classify(failures, p.get("known", []))
     emit({"ok": not rest, "evaluations": sum(r[0] for r in res), "distinct_nontrivial": len(pool),
